@@ -150,11 +150,13 @@ impl SocketSend for XPubSocket {
                     match res {
                         Ok(()) => {}
                         Err(ZmqError::Codec(CodecError::Io(e))) => {
-                            if e.kind() == ErrorKind::BrokenPipe {
-                                dead_peers.push(subscriber.key().clone());
-                            } else {
+                            // A write that failed, whatever the error kind
+                            // (EPIPE, ECONNRESET, ETIMEDOUT ...), means the
+                            // connection is gone: forget the subscriber.
+                            if e.kind() != ErrorKind::BrokenPipe {
                                 log::error!("Error sending message: {:?}", e);
                             }
+                            dead_peers.push(subscriber.key().clone());
                         }
                         Err(ZmqError::BufferFull(_)) => {
                             // Silently drop the message if the queue for a subscriber is full.
